@@ -46,7 +46,8 @@ Print Assumptions C01_encode_conforms.
        exactly the wire's field values (read-bits responses: up to the wire's zero padding) ---- *)
 Theorem C01_decode_conforms : forall m,
   spec_wf m = true -> conforming_decode m = true ->
-  exists o d, py_decode (msg_is_request m) (spec_pdu m) = Ok o /\ abs o = Some d /\ msg_matches m d = true.
+  exists o d, py_decode (msg_is_request m) (spec_pdu m) = Ok o /\ class_of o = spec_class m /\
+              abs o = Some d /\ msg_matches m d = true.
 Proof. exact decode_conforms. Qed.
 Print Assumptions C01_decode_conforms.
 
@@ -100,7 +101,8 @@ Print Assumptions C01_encode_rejects_registers.
 Definition C01_full_statement : Prop :=
   (forall o m, abs o = Some m -> py_pdu o = Ok (spec_pdu m)) /\
   (forall m, spec_wf m = true ->
-     exists o d, py_decode (msg_is_request m) (spec_pdu m) = Ok o /\ abs o = Some d /\ msg_matches m d = true).
+     exists o d, py_decode (msg_is_request m) (spec_pdu m) = Ok o /\ class_of o = spec_class m /\
+                 abs o = Some d /\ msg_matches m d = true).
 
 Theorem C01_fifo_encode_refuted :
   exists o m, abs o = Some m /\ class_of o = ReadFifoQueueResponse /\ py_pdu o <> Ok (spec_pdu m).
